@@ -255,3 +255,13 @@ for _pid in ("C02", "C04", "C05", "C06", "C07", "C09", "C10", "C11"):
     _te = "tools/inventory_kernels*.py (translator; see DESIGN §0.6): Rust reading table, BlockBuffer methods as named primitives mapped to CC.Buffer, extern compressor functions, struct invariants assumed in the glue obligations"
     if _te not in PROPS[_pid].get("trusted_extra", []):
         PROPS[_pid]["trusted_extra"] = list(PROPS[_pid].get("trusted_extra", [])) + [_te]
+
+
+# ---- round 6 of the translator tie: code that was still hand-transcribed (tools/inventory_hashc.py ->
+#      lean/CC/Gen/HashCSrc.lean): the JH compressor as a whole, the Skein `Block` union, the Grøstl intrinsic dataflow
+for _pid, _thm in (("C06", "source_compressor_match"),):
+    if _thm not in PROPS[_pid]["theorems"]:
+        PROPS[_pid]["theorems"] = list(PROPS[_pid]["theorems"]) + [_thm]
+    _te = "tools/inventory_hashc.py (translator, round 6): reading table printed in the header of lean/CC/Gen/HashCSrc.lean (raw pointers, unions, transmute!, constant match, function values, intrinsics ↦ CC.Groestl.Intrin)"
+    if _te not in PROPS[_pid].get("trusted_extra", []):
+        PROPS[_pid]["trusted_extra"] = list(PROPS[_pid].get("trusted_extra", [])) + [_te]
